@@ -140,3 +140,12 @@ add("mat-vec-mixed", fn("float3x3 m, int3 v) -> float3", ["return m * v;"]))
 add("mat-scalar-int", fn("float3x3 m, int a) -> float3x3", ["return m * a + a * m;"]))
 add("mat-div-scalar", fn("float4x4 m, int a) -> float4x4", ["return m / a;"]))
 add("matrix3x3-alias", fn("matrix3x3 m) -> float3", ["return m[1];"]))
+
+# ---- values outside every machine range: the VM's integers are Python integers (they never wrap at 32 bits) and its floats
+# reach infinity / NaN; converting such a value stops with a Python exception (known findings, see DESIGN.md)
+_SQ_I = ["int x = 3;", "for (int i = 0; i < 12; i++)", "{", "  x = x * x;", "}"]
+_SQ_F = ["float x = 3.0;", "for (int i = 0; i < 12; i++)", "{", "  x = x * x;", "}"]
+add("range-hugeint-to-float", fn("int a) -> float", _SQ_I + ["float y = x;", "return y + 1.0;"]))
+add("range-hugeint-div-float", fn("int a) -> float", _SQ_I + ["return x / 2.0;"]))
+add("range-inf-to-int", fn("int a) -> int", _SQ_F + ["return int(x);"]))
+add("range-nan-to-int", fn("int a) -> int", _SQ_F + ["return int(x - x);"]))
